@@ -2365,7 +2365,11 @@ class PhonopyConfParser(ConfParser):
         # Project PDOS x, y, z directions in Cartesian coordinates
         if "xyz_projection" in params:
             self._settings.set_xyz_projection(params["xyz_projection"])
-            if "pdos" not in params and self._settings.pdos_indices is None:
+            if (
+                params["xyz_projection"]
+                and "pdos" not in params
+                and self._settings.pdos_indices is None
+            ):
                 self.set_parameter("pdos", [])
 
         if "pdos" in params:
